@@ -372,8 +372,10 @@ val eval_text_span : span_model -> char list -> char list outcome
 
 val tagged : char list -> char list list -> char list ns
 
-val name_lookup : char list -> char list ns -> char list pyres
+val name_lookup_outer :
+  char list ns -> char list -> char list ns -> char list pyres
 
 val ns_case :
-  char list list -> char list list -> char list list option -> char list list
-  option -> char list -> (char list dheap * char list ns) * char list eres
+  char list list -> char list list -> char list list -> char list list option
+  -> char list list option -> char list -> (char list dheap * char list
+  ns) * char list eres
